@@ -276,7 +276,8 @@ package variants
 //@   ensures[C20] vinv(c) && c.typ == Array && len(arrOf(c)) == max(old(len(arrOf(c))), index + 1)
 //@   ensures[C20] arrOf(c)[index] == element
 //@   ensures[C20] forall i int :: 0 <= i && i < old(len(arrOf(c))) && i != index ==> arrOf(c)[i] == old(arrOf(c)[i])
-//@   ensures[C20] forall i int :: old(len(arrOf(c))) <= i && i < index ==>
+// (also C03: the evaluator indexes and scans arrays built this way; a nil slot there would be neither a result nor an error)
+//@   ensures[C20,C03] forall i int :: old(len(arrOf(c))) <= i && i < index ==>
 //@       fresh(arrOf(c)[i]) && arrOf(c)[i].typ == Null && arrOf(c)[i].value == nil
 //@   assigns c.value, arrOf(c)[*]
 //@   nopanic
@@ -294,7 +295,7 @@ package variants
 //@   requires vinv(c) && c.typ == Array
 //@   ensures[C20] vinv(c) && c.typ == Array && len(arrOf(c)) == max(old(len(arrOf(c))), value)
 //@   ensures[C20] forall i int :: 0 <= i && i < old(len(arrOf(c))) ==> arrOf(c)[i] == old(arrOf(c)[i])
-//@   ensures[C20] forall i int :: old(len(arrOf(c))) <= i && i < len(arrOf(c)) ==>
+//@   ensures[C20,C03] forall i int :: old(len(arrOf(c))) <= i && i < len(arrOf(c)) ==>
 //@       arrOf(c)[i] != nil && fresh(arrOf(c)[i]) && arrOf(c)[i].typ == Null && arrOf(c)[i].value == nil
 //@   assigns c.value, arrOf(c)[*]
 //@   nopanic
